@@ -166,10 +166,25 @@ func (s *sut) step(r *ref, o op, out *stepOutcome) {
 			// not fragmentation but the wrong choice of member
 			otherMemberHasBlock := false
 			if s.cfg.Buddy && s.unifiedTarget(o) {
-				for _, g := range s.cfg.Unified {
+				hasBlock := func(g, n int) bool {
 					for _, b := range s0.free[g].ord {
-						if int(b.n) >= need {
-							otherMemberHasBlock = true
+						if int(b.n) >= n {
+							return true
+						}
+					}
+					return false
+				}
+				for _, g := range s.cfg.Unified {
+					otherMemberHasBlock = otherMemberHasBlock || hasBlock(g, need)
+				}
+				if o.K == opDistribute {
+					// the refusal may come from a real GPU of the list instead: blame the
+					// unified entry only when every real GPU of the list could take the
+					// whole range in one block
+					n := pagesOf(r.distBytes(o), r.P)
+					for _, g := range s.cfg.GPULists[o.GPUs] {
+						if g != s.cfg.unifiedID() && !hasBlock(g, n) {
+							otherMemberHasBlock = false
 						}
 					}
 				}
